@@ -7,12 +7,32 @@ import wave
 ETH = 20  # energy threshold (dB) used everywhere: loud >= 36 dB, quiet <= 10 dB
 
 
-def scratch_dir():
+_FROZEN = [False]
+
+
+def collect_garbage():
+    """Finalise what earlier runs of this process left behind BEFORE this
+    run's scratch files exist: the library's savers delete their temporary
+    file by name in __del__, and the scratch path is shared between runs - a
+    late finaliser would otherwise act on the current run's files and make a
+    run depend on which runs preceded it in the process."""
+    import gc
+    gc.collect()
+    if not _FROZEN[0]:
+        # everything alive now (modules, engines) is permanent: later
+        # collections only look at what the runs create
+        gc.freeze()
+        _FROZEN[0] = True
+
+
+def scratch_dir(collect=False):
     """Per-run scratch directory.  The path is the SAME for every run of one
     process (removed and re-created), so that code which remembers something
     about a path across uses (memoised headers, cached contents) meets the
     same path again with different content - as a user overwriting a file
     would produce."""
+    if collect:
+        collect_garbage()
     base = "/dev/shm" if os.path.isdir("/dev/shm") else tempfile.gettempdir()
     d = os.path.join(base, "vsim_%d" % os.getpid())
     if os.path.isdir(d):
